@@ -3,6 +3,7 @@ package nc
 import (
 	"go/constant"
 	"go/types"
+	"strings"
 
 	"golang.org/x/tools/go/ssa"
 )
@@ -174,10 +175,29 @@ func repoCallSites(p *Prog, fn *ssa.Function) (sites []ssa.CallInstruction, clos
 	return sites, closed
 }
 
-// sliceLitAll: v is a slice literal of exactly n elements (a slice of a fresh array whose
-// elements 0..n-1 are each stored exactly once, with constant indexes) and every stored
-// element satisfies pred.
+// sliceLitAll: v is a fresh slice of exactly n elements, each written exactly once (see
+// c19FreshElems), and every element satisfies pred.
 func sliceLitAll(fn *ssa.Function, v ssa.Value, n int, pred func(ssa.Value) bool) bool {
+	els, ok := c19FreshElems(v, n, nil)
+	if !ok {
+		return false
+	}
+	for _, e := range els {
+		if !pred(e) {
+			return false
+		}
+	}
+	return true
+}
+
+// c19FreshElems: v is a slice of exactly n elements that the function created itself and
+// filled element by element - a composite literal (a slice of a fresh array) or
+// make([]T, n) with a constant n (which the SSA builder turns into a slice [:n] of a fresh
+// [n]T as well) - where each index 0..n-1 is stored exactly once through
+// a constant index, nothing else can write the storage (it is not passed on or stored
+// anywhere before it is returned) and, when `at` is given, every store is executed before
+// control reaches `at` (its block dominates `at`). Returns the stored values by index.
+func c19FreshElems(v ssa.Value, n int, at *ssa.BasicBlock) ([]ssa.Value, bool) {
 	for {
 		if ct, ok := v.(*ssa.ChangeType); ok {
 			v = ct.X
@@ -185,56 +205,101 @@ func sliceLitAll(fn *ssa.Function, v ssa.Value, n int, pred func(ssa.Value) bool
 		}
 		break
 	}
-	sl, ok := v.(*ssa.Slice)
-	if !ok || sl.Low != nil || sl.High != nil {
-		return false
-	}
-	al, ok := sl.X.(*ssa.Alloc)
-	if !ok {
-		return false
-	}
-	at, ok := deref(al.Type()).Underlying().(*types.Array)
-	if !ok || at.Len() != int64(n) {
-		return false
-	}
-	seen := map[int64]int{}
-	good := true
-	for _, ref := range *al.Referrers() {
-		switch x := ref.(type) {
-		case *ssa.Slice:
-			if x != sl {
-				good = false
-			}
-		case *ssa.IndexAddr:
-			k, isC := x.Index.(*ssa.Const)
-			if !isC || k.Value == nil {
-				good = false
-				continue
-			}
-			for _, r2 := range *x.Referrers() {
-				st, isSt := r2.(*ssa.Store)
-				if !isSt || st.Addr != x {
-					good = false
-					continue
-				}
-				seen[k.Int64()]++
-				if !pred(st.Val) {
-					good = false
-				}
-			}
-		default:
-			good = false
+	// the storage and every name under which the function handles it
+	alias := map[ssa.Value]bool{}
+	var work []ssa.Value
+	add := func(x ssa.Value) {
+		if !alias[x] {
+			alias[x] = true
+			work = append(work, x)
 		}
 	}
-	if !good || len(seen) != n {
-		return false
+	// whole: the slice expression covers the whole underlying storage of n elements (a[:], a[0:], a[:n])
+	isConst := func(v ssa.Value, k int64) bool {
+		c, ok := v.(*ssa.Const)
+		return ok && c.Value != nil && c.Value.Kind() == constant.Int && c.Int64() == k
+	}
+	whole := func(x *ssa.Slice) bool {
+		return (x.Low == nil || isConst(x.Low, 0)) && (x.High == nil || isConst(x.High, int64(n))) && (x.Max == nil || isConst(x.Max, int64(n)))
+	}
+	switch x := v.(type) {
+	case *ssa.Slice:
+		if !whole(x) {
+			return nil, false
+		}
+		al, ok := x.X.(*ssa.Alloc)
+		if !ok {
+			return nil, false
+		}
+		arr, ok := deref(al.Type()).Underlying().(*types.Array)
+		if !ok || arr.Len() != int64(n) {
+			return nil, false
+		}
+		add(al)
+		add(x)
+	case *ssa.MakeSlice:
+		k, ok := x.Len.(*ssa.Const)
+		if !ok || k.Value == nil || k.Value.Kind() != constant.Int || k.Int64() != int64(n) {
+			return nil, false
+		}
+		add(x)
+	default:
+		return nil, false
+	}
+	els := make([]ssa.Value, n)
+	cnt := make([]int, n)
+	for len(work) > 0 {
+		a := work[0]
+		work = work[1:]
+		refs := a.Referrers()
+		if refs == nil {
+			return nil, false
+		}
+		for _, ref := range *refs {
+			switch x := ref.(type) {
+			case *ssa.Return, *ssa.DebugRef:
+			case *ssa.ChangeType:
+				add(x)
+			case *ssa.Phi:
+				add(x)
+			case *ssa.Slice:
+				if x.X != a || !whole(x) {
+					return nil, false
+				}
+				add(x)
+			case *ssa.IndexAddr:
+				k, isC := x.Index.(*ssa.Const)
+				if x.X != a || !isC || k.Value == nil || k.Value.Kind() != constant.Int || k.Int64() < 0 || k.Int64() >= int64(n) {
+					return nil, false
+				}
+				for _, r2 := range *x.Referrers() {
+					switch y := r2.(type) {
+					case *ssa.Store:
+						if y.Addr != x {
+							return nil, false // the element address itself is stored somewhere
+						}
+						if at != nil && y.Block() != at && !y.Block().Dominates(at) {
+							return nil, false
+						}
+						els[k.Int64()] = y.Val
+						cnt[k.Int64()]++
+					case *ssa.UnOp, *ssa.DebugRef:
+						// a read of the element
+					default:
+						return nil, false
+					}
+				}
+			default:
+				return nil, false // passed to a call, stored, appended to, re-sliced with bounds ...
+			}
+		}
 	}
 	for i := 0; i < n; i++ {
-		if seen[int64(i)] != 1 {
-			return false
+		if cnt[i] != 1 {
+			return nil, false
 		}
 	}
-	return true
+	return els, true
 }
 
 // c19PhenotypeResult: t is result #idx of Organism.Phenotype() called on an organism accepted by isOrg.
@@ -325,6 +390,193 @@ func c19PhenotypeOK(tm *Termer, lf retLeaf, isOrg func(*Term) bool) bool {
 			if b.Op == "nil" && c19PhenotypeResult(a, 1, isOrg) {
 				return true
 			}
+		}
+	}
+	return false
+}
+
+// ---- the quantities of the Floats accessors and the expressions that are defined to be them ----
+//
+// A Floats accessor is "the right statistic" when what it returns on a non-empty series is an
+// expression of the table below over the series itself (the receiver, unweighted: the weights
+// argument is nil). Every line is an identity of definitions in the pinned gonum v0.14.0
+// (stat/stat.go, floats/floats.go), not a numerical approximation: the accepted expression
+// performs the same floating-point operations in the same order as the canonical one.
+//
+//	quantity  accepted expression                     reason
+//	--------  --------------------------------------  ------------------------------------------------------------
+//	Sum       floats.Sum(x)                           canonical
+//	Min       floats.Min(x)                           canonical
+//	Min       x[floats.MinIdx(x)]                     floats.Min is `return s[MinIdx(s)]`
+//	Max       floats.Max(x)                           canonical
+//	Max       x[floats.MaxIdx(x)]                     floats.Max is `return s[MaxIdx(s)]`
+//	Mean      stat.Mean(x, nil)                       canonical
+//	Mean      <Sum> / float64(len(x))                 stat.Mean with nil weights is `return floats.Sum(x) / float64(len(x))`
+//	Mean      stat.MeanVariance(x, nil) #0            its mean is `mean = Mean(x, weights)` (meanUnnormalisedVarianceSumWeights), returned unchanged
+//	Mean      stat.MeanStdDev(x, nil) #0              MeanStdDev returns the mean of MeanVariance unchanged
+//	Variance  stat.Variance(x, nil)                   canonical
+//	Variance  stat.MeanVariance(x, nil) #1            stat.Variance is `_, variance := MeanVariance(x, weights); return variance`
+//	StdDev    stat.StdDev(x, nil)                     canonical
+//	StdDev    stat.MeanStdDev(x, nil) #1              stat.StdDev is `_, std := MeanStdDev(x, weights); return std`
+//	StdDev    math.Sqrt(<Variance>)                   stat.MeanStdDev is `mean, variance := MeanVariance(x, weights); return mean, math.Sqrt(variance)`
+//	<Q>       x.Q()  (another accessor of Floats)     that accessor is held to the same table by its own obligation; on a non-empty series it is <Q>
+//	pair      fresh 2-element slice {<Mean>, <Variance>}   Floats.MeanVariance returns the two results of stat.MeanVariance, which are <Mean> and <Variance> by the lines above
+//	quantile  stat.Quantile(level, ...)               canonical (kind, sorted input and weights are the obligations of C19.2)
+//
+// Deliberately NOT in the table: stat.PopVariance/PopStdDev/PopMeanVariance (divide by n, not n-1), a
+// hand-written loop (a different summation order or formula is a different floating-point result, see the
+// single-pass variance), min/max through sorting or the slices package (different NaN behaviour).
+// The accessor line cannot be circular: an accessor may not stand for its own quantity, and the table has no
+// way back from Sum, Min, Max or Variance to an accessor that depends on them.
+
+const (
+	c19PkgStat   = "gonum.org/v1/gonum/stat"
+	c19PkgFloats = "gonum.org/v1/gonum/floats"
+)
+
+type c19Quant struct {
+	p    *Prog
+	self string // the accessor being examined: it cannot stand for its own quantity
+}
+
+// lib: t is a call of the package-level function pkg.name; returns its argument terms.
+func (q c19Quant) lib(t *Term, pkg, name string) ([]*Term, bool) {
+	if t == nil || t.Op != "call" {
+		return nil, false
+	}
+	c, ok := t.V.(*ssa.Call)
+	if !ok {
+		return nil, false
+	}
+	f := c.Call.StaticCallee()
+	if f == nil || f.Signature.Recv() != nil || f.Name() != name {
+		return nil, false
+	}
+	path := ""
+	if f.Pkg != nil {
+		path = f.Pkg.Pkg.Path()
+	} else if f.Object() != nil && f.Object().Pkg() != nil {
+		path = f.Object().Pkg().Path()
+	}
+	if path != pkg {
+		return nil, false
+	}
+	return t.Args, true
+}
+
+func c19IsSeries(t *Term) bool { return t != nil && t.Op == "recv" }
+
+// unweighted: pkg.name(x, nil)
+func (q c19Quant) unweighted(t *Term, name string) bool {
+	a, ok := q.lib(t, c19PkgStat, name)
+	return ok && len(a) == 2 && c19IsSeries(a[0]) && a[1].Op == "nil"
+}
+
+// ofSeries: pkg.name(x)
+func (q c19Quant) ofSeries(t *Term, name string) bool {
+	a, ok := q.lib(t, c19PkgFloats, name)
+	return ok && len(a) == 1 && c19IsSeries(a[0])
+}
+
+// result: t is result #idx of the unweighted stat.name(x, nil)
+func (q c19Quant) result(t *Term, name string, idx int) bool {
+	return t != nil && t.Op == "extract" && t.Idx == idx && len(t.Args) == 1 && q.unweighted(t.Args[0], name)
+}
+
+// accessor: t is x.name() for another accessor of the table
+func (q c19Quant) accessor(t *Term, name string) bool {
+	if name == q.self || t == nil || t.Op != "call" || len(t.Args) != 1 || !c19IsSeries(t.Args[0]) {
+		return false
+	}
+	f := q.p.FuncOpt(PkgE, "Floats."+name)
+	return f != nil && isCallTo(t, f)
+}
+
+// Is decides whether t is the named quantity of the series by the table above.
+func (q c19Quant) Is(quantity string, t *Term) bool {
+	if t == nil {
+		return false
+	}
+	if q.accessor(t, quantity) {
+		return true
+	}
+	switch quantity {
+	case "Sum":
+		return q.ofSeries(t, "Sum")
+	case "Min", "Max":
+		if q.ofSeries(t, quantity) {
+			return true
+		}
+		return t.Op == "elem" && len(t.Args) == 2 && c19IsSeries(t.Args[0]) && q.ofSeries(t.Args[1], quantity+"Idx")
+	case "Mean":
+		if q.unweighted(t, "Mean") || q.result(t, "MeanVariance", 0) || q.result(t, "MeanStdDev", 0) {
+			return true
+		}
+		if t.Op == "bin" && t.Name == "/" && q.Is("Sum", t.Args[0]) {
+			d := t.Args[1]
+			return d.Op == "conv" && d.Name == "float64" && d.Args[0].Op == "len" && c19IsSeries(d.Args[0].Args[0])
+		}
+		return false
+	case "Variance":
+		return q.unweighted(t, "Variance") || q.result(t, "MeanVariance", 1)
+	case "StdDev":
+		if q.unweighted(t, "StdDev") || q.result(t, "MeanStdDev", 1) {
+			return true
+		}
+		if a, ok := q.lib(t, "math", "Sqrt"); ok && len(a) == 1 {
+			return q.Is("Variance", a[0])
+		}
+		return false
+	}
+	return false
+}
+
+// nanOnEmpty: t is NaN for the empty series without a test of its own, because it is an accessor that is
+// itself obliged to return NaN there (C19.1 of that accessor), or the square root of such a value
+// (math.Sqrt(NaN) is NaN).
+func (q c19Quant) nanOnEmpty(t *Term) bool {
+	for _, sp := range floatsTable {
+		if sp.guard && sp.method != "MeanVariance" && q.accessor(t, sp.method) {
+			return true
+		}
+	}
+	if a, ok := q.lib(t, "math", "Sqrt"); ok && len(a) == 1 {
+		return q.nanOnEmpty(a[0])
+	}
+	return false
+}
+
+// c19GonumCalls lists the calls in fn of functions of the gonum module: those have preconditions on
+// the series (floats.Min/Max and stat.Quantile panic on an empty one, the moments are 0/0).
+func c19GonumCalls(fn *ssa.Function) []ssa.CallInstruction {
+	var out []ssa.CallInstruction
+	Instrs(fn, func(_ *ssa.BasicBlock, _ int, in ssa.Instruction) {
+		c, ok := in.(ssa.CallInstruction)
+		if !ok {
+			return
+		}
+		f := c.Common().StaticCallee()
+		if f == nil {
+			return
+		}
+		path := ""
+		if f.Pkg != nil {
+			path = f.Pkg.Pkg.Path()
+		} else if f.Object() != nil && f.Object().Pkg() != nil {
+			path = f.Object().Pkg().Path()
+		}
+		if strings.HasPrefix(path, "gonum.org/v1/gonum/") {
+			out = append(out, c)
+		}
+	})
+	return out
+}
+
+// c19OnEmpty: the leaf is produced on a path on which len(x)==0 is established.
+func c19OnEmpty(tm *Termer, lf retLeaf, of string) bool {
+	for _, g := range lf.Guards {
+		if empty, ok := lenGuard(tm, g, of); ok && empty {
+			return true
 		}
 	}
 	return false
